@@ -284,6 +284,15 @@ func fixNamedTypePointers(node any, namedTypes map[string]NamedType) {
 			newValues := make(map[string]*EnumValueDefinition, len(n.Values))
 			for k, v := range n.Values {
 				newValue := *v
+				if newValue.Directives != nil {
+					newDirectives := make([]*Directive, len(newValue.Directives))
+					for i, d := range newValue.Directives {
+						newDirective := *d
+						fixNamedTypePointers(&newDirective, namedTypes)
+						newDirectives[i] = &newDirective
+					}
+					newValue.Directives = newDirectives
+				}
 				newValues[k] = &newValue
 			}
 			n.Values = newValues
